@@ -162,8 +162,8 @@ def encNum (x : Num) : Item :=
 Modelled: an optional sign, decimal digits with at most one point (at least one
 digit), and the spellings of infinity.  The value is the correctly rounded
 512-bit number — math/big divides the exact integer mantissa by an exact power
-of five as long as that power fits 576 bits (at most 248 fractional digits).
-Exponents (`e`, `p`), longer fractions: `.unmodelled`.  Anything else made only
+of five as long as that power fits 576 bits (at most 248 fractional digits), and
+by `pow5`'s rounded power beyond.  Exponents (`e`, `p`): `.unmodelled`.  Anything else made only
 of the characters `0-9 . + - _` is a syntax error. -/
 
 def isDigit (c : Char) : Bool := '0' ≤ c && c ≤ '9'
@@ -171,6 +171,30 @@ def isDigit (c : Char) : Bool := '0' ≤ c && c ≤ '9'
 def digitsVal : List Char → Nat → Nat
   | [], acc => acc
   | c :: cs, acc => digitsVal cs (acc * 10 + (c.toNat - 48))
+
+/-- `z.Mul(x, y)` at precision `p` (finite operands) -/
+def mulRound (a b : Num) (p : Nat) : Num :=
+  match a, b with
+  | .fin na ma ea _, .fin nb mb eb _ => Num.round (na != nb) (ma * mb) (ea + eb) p
+  | _, _ => a
+
+/-- the square-and-multiply loop of math/big's `pow5`: `z` at 576 bits, `f` at 640 -/
+def pow5Loop : Nat → Nat → Num → Num → Num
+  | 0, _, z, _ => z
+  | fuel + 1, n, z, f =>
+    if n = 0 then z
+    else pow5Loop fuel (n / 2) (if n % 2 = 1 then mulRound z f 576 else z) (mulRound f f 640)
+
+/-- `p.pow5(k)` for `k > 27` with `p` at 576 bits: no longer exact once 5^k needs more
+than 576 bits (k > 248), and math/big then divides by the ROUNDED power -/
+def pow5 (k : Nat) : Num :=
+  pow5Loop 64 (k - 27) (Num.mk false (5 ^ 27) 0 576) (Num.mk false 5 0 640)
+
+/-- the divisor `5^k · 2^k` as math/big computes it for more than 248 fractional digits -/
+def pow10Rounded (k : Nat) : Num :=
+  match pow5 k with
+  | .fin _ m e _ => .fin false m (e + k) 512
+  | x => x
 
 def parseUnsigned (neg : Bool) (cs : List Char) : Res Num :=
   let ip := cs.takeWhile isDigit
@@ -185,7 +209,8 @@ def parseUnsigned (neg : Bool) (cs : List Char) : Res Num :=
         let k := fr.length
         let n := digitsVal (ip ++ fr) 0
         if k = 0 then .ok (Num.round neg n 0 512)
-        else if k > 248 then .unmodelled
+        else if k > 248 then
+          (if k > 100000 then .unmodelled else Num.quo (.fin neg n 0 512) (pow10Rounded k))
         else Num.quo (.fin neg n 0 512) (.fin false (5 ^ k) k 512)
     else if fr.all fun c => isDigit c || c == '.' || c == '+' || c == '-' || c == '_' then .err "number"
     else .unmodelled
